@@ -9,6 +9,7 @@ import (
 	"context"
 	"encoding/json"
 	"fmt"
+	"reflect"
 	"sort"
 	"strings"
 
@@ -167,6 +168,7 @@ type ParamDecl struct {
 
 // SDoc selects one member of the document family.
 type SDoc struct {
+	Method     string      `json:"method,omitempty"`  // request leg: the operation's method, "" = post | put | patch | delete | options
 	SecOp      string      `json:"sec_op,omitempty"`  // operation-level requirement shape: "" (absent) | single | or | and | empty_req | empty_list | or3
 	SecDoc     string      `json:"sec_doc,omitempty"` // document-level requirement shape, same vocabulary
 	Params     []ParamDecl `json:"params,omitempty"`
@@ -267,6 +269,95 @@ var respSchema = map[string]any{
 	"properties": map[string]any{"id": map[string]any{"type": "integer"}, "tag": map[string]any{"type": "string"}},
 }
 
+// Sibling is another member of the document family with the same operation,
+// parameter names, locations and body property names as d, and different
+// default values everywhere: what a process that serves two APIs holds side by
+// side. Anything the library remembers across documents under a name shows when
+// d is used after its sibling.
+func (d SDoc) Sibling() SDoc {
+	var c SDoc
+	b, _ := json.Marshal(d)
+	json.Unmarshal(b, &c)
+	var other func(v any, enum []any) any
+	other = func(v any, enum []any) any {
+		if len(enum) > 0 {
+			for _, e := range enum {
+				if !reflect.DeepEqual(e, v) {
+					return e
+				}
+			}
+			return v
+		}
+		switch x := v.(type) {
+		case string:
+			return x + "-sib"
+		case float64:
+			return x + 1
+		case bool:
+			return !x
+		case []any:
+			out := make([]any, 0, len(x)+1)
+			for _, e := range x {
+				out = append(out, other(e, nil))
+			}
+			return out
+		case map[string]any:
+			out := map[string]any{}
+			for k, e := range x {
+				out[k] = other(e, nil)
+			}
+			return out
+		}
+		return v
+	}
+	for i := range c.Params {
+		if c.Params[i].Default != nil {
+			c.Params[i].Default = other(c.Params[i].Default, c.Params[i].Enum)
+		}
+	}
+	for i := range c.PathParams {
+		if c.PathParams[i].Default != nil {
+			c.PathParams[i].Default = other(c.PathParams[i].Default, c.PathParams[i].Enum)
+		}
+	}
+	var walk func(n *Node)
+	walk = func(n *Node) {
+		if n == nil {
+			return
+		}
+		if n.Default != nil {
+			n.Default = other(n.Default, n.Enum)
+		}
+		for _, p := range n.Props {
+			walk(p)
+		}
+		walk(n.Items)
+		for _, x := range n.OneOf {
+			walk(x)
+		}
+		for _, x := range n.AnyOf {
+			walk(x)
+		}
+		for _, x := range n.AllOf {
+			walk(x)
+		}
+	}
+	walk(c.Body)
+	return c
+}
+
+// OpKey is the path item member the operation sits under.
+func (d SDoc) OpKey() string {
+	switch d.Method {
+	case "put", "patch", "delete", "options":
+		return d.Method
+	}
+	return "post"
+}
+
+// HTTPMethod is the request method that reaches the operation.
+func (d SDoc) HTTPMethod() string { return strings.ToUpper(d.OpKey()) }
+
 // JSON renders the document.
 func (d SDoc) JSON() []byte {
 	op := map[string]any{"operationId": "op"}
@@ -359,7 +450,7 @@ func (d SDoc) JSON() []byte {
 	doc := map[string]any{
 		"openapi": "3.0.3",
 		"info":    map[string]any{"title": "sim-stream", "version": "1"},
-		"paths":   map[string]any{"/thing": pathItem(op, responses, pathLevel)},
+		"paths":   map[string]any{"/thing": pathItem(d.OpKey(), op, responses, pathLevel)},
 		"components": map[string]any{"securitySchemes": map[string]any{
 			"a": map[string]any{"type": "apiKey", "in": "header", "name": "X-A"},
 			"b": map[string]any{"type": "oauth2", "flows": map[string]any{"implicit": map[string]any{"authorizationUrl": "https://sim.test/auth", "scopes": map[string]any{"read": "r", "write": "w"}}}},
@@ -376,8 +467,8 @@ func (d SDoc) JSON() []byte {
 	return b
 }
 
-func pathItem(op, responses map[string]any, pathLevel []any) map[string]any {
-	pi := map[string]any{"post": op, "head": map[string]any{"responses": responses}}
+func pathItem(key string, op, responses map[string]any, pathLevel []any) map[string]any {
+	pi := map[string]any{key: op, "head": map[string]any{"responses": responses}}
 	if len(pathLevel) > 0 {
 		pi["parameters"] = pathLevel
 	}
@@ -454,7 +545,11 @@ func (w *World) PatchSecurity(shape string) {
 	if shape != "nil_slice_ptr" {
 		return
 	}
-	if pi := w.Doc.Paths.Value("/thing"); pi != nil && pi.Post != nil {
-		pi.Post.Security = new(openapi3.SecurityRequirements)
+	if pi := w.Doc.Paths.Value("/thing"); pi != nil {
+		for m, op := range pi.Operations() {
+			if m != "HEAD" && op != nil {
+				op.Security = new(openapi3.SecurityRequirements)
+			}
+		}
 	}
 }
